@@ -186,6 +186,60 @@ func c12Names(c *fw.Ctx) {
 	for k := 0; k < 40; k++ {
 		names = append(names, c12RandName(r))
 	}
+	// long names and near copies of them (a doubled or a dropped letter, a
+	// word more): lengths around and beyond machine-word and buffer sizes
+	for k := 0; k < 8; k++ {
+		var ps []string
+		for n := r.Range(5, 16); n > 0; n-- {
+			ps = append(ps, []string{"Pablo", "Diego", "Jose", "Francisco", "de", "Paula", "Juan", "Nepomuceno", "Cipriano", "Ruiz", "Picasso", "Maria", "von", "Hohenzollern", "Sigmaringen"}[r.Intn(15)])
+		}
+		a := strings.Join(ps, " ")
+		names = append(names, a)
+		b := []byte(a)
+		for e := r.Range(1, 3); e > 0 && len(b) > 2; e-- {
+			q := len(b) - 1 - r.Intn(minInt(len(b)-1, 12))
+			switch r.Intn(3) {
+			case 0:
+				b = append(b[:q], b[q+1:]...)
+			case 1:
+				b = append(b[:q], append([]byte{b[q]}, b[q:]...)...)
+			case 2:
+				b = append(b, " Cipriano"...)
+			}
+		}
+		names = append(names, string(b))
+	}
+	// raw comparisons of long strings over a small alphabet, one at most and
+	// one more than 64 bytes long
+	for k := 0; k < 30; k++ {
+		alpha := []string{"ab", "abc", "ab "}[r.Intn(3)]
+		mk := func(n int) string {
+			b := make([]byte, n)
+			for q := range b {
+				b[q] = alpha[r.Intn(len(alpha))]
+			}
+			return string(b)
+		}
+		a := mk(r.Range(40, 64))
+		b := a[:r.Intn(len(a))] + mk(r.Range(1, 40))
+		if r.Bool() {
+			b = mk(r.Range(65, 130))
+		}
+		p := c12JW[r.Intn(len(c12JW))]
+		ab, ba := gedcom.JaroWinkler(a, b, p.thr, p.pre), gedcom.JaroWinkler(b, a, p.thr, p.pre)
+		c.Count("string-pairs", 1)
+		c.Count("long-string-pairs", 1)
+		pl := map[string]interface{}{"a": a, "b": b, "boost_threshold": p.thr, "prefix_size": p.pre, "function": "JaroWinkler"}
+		if c12Bad(ab) || c12Bad(ba) {
+			c.Violation("range:JaroWinkler", fmt.Sprintf("JaroWinkler(%q,%q,%v,%d)=%v / swapped %v outside [0,1]", a, b, p.thr, p.pre, ab, ba), pl)
+		}
+		if math.Abs(ab-ba) > c12Tol {
+			c.Violation("symmetry:JaroWinkler", fmt.Sprintf("JaroWinkler(%q,%q,%v,%d)=%.12f but swapped = %.12f", a, b, p.thr, p.pre, ab, ba), pl)
+		}
+		if aa := gedcom.JaroWinkler(b, b, p.thr, p.pre); math.Abs(aa-1) > c12Tol {
+			c.Violation("identity:JaroWinkler", fmt.Sprintf("JaroWinkler(%q, itself)=%v, want 1", b, aa), pl)
+		}
+	}
 	for x := 0; x < len(names); x++ {
 		for y := x; y < len(names); y++ {
 			a, b := names[x], names[y]
@@ -336,9 +390,19 @@ func c12RandOptions(r *fw.Rand) gedcom.SimilarityOptions {
 	if t == 0 {
 		return o
 	}
+	if r.Chance(1, 3) {
+		// weights of exactly 0 are legal: "only look at the individual"
+		for z := r.Range(1, 3); z > 0; z-- {
+			w[r.Intn(4)] = 0
+		}
+		t = w[0] + w[1] + w[2] + w[3]
+		if t == 0 {
+			w[r.Intn(4)], t = 1, 1
+		}
+	}
 	o.IndividualWeight, o.ParentsWeight, o.SpousesWeight = w[0]/t, w[1]/t, w[2]/t
 	o.ChildrenWeight = 1 - o.IndividualWeight - o.ParentsWeight - o.SpousesWeight
-	if o.ChildrenWeight < 0 {
+	if o.ChildrenWeight < 0 || w[3] == 0 {
 		o.ChildrenWeight = 0
 	}
 	o.MaxYears = r.Float()*49.9 + 0.1
@@ -398,6 +462,21 @@ func c12People(c *fw.Ctx) {
 		}
 		if math.Abs(ab-ba) > c12Tol {
 			c.Violation("symmetry:"+fn, fmt.Sprintf("%s %s = %.12f but swapped = %.12f (options %s)", fn, what, ab, ba, opts), pl)
+		}
+	}
+	// the weighted similarity on its own: component similarities anywhere in
+	// [0,1] (the corners included) under random weights that sum to 1
+	for k := 0; k < 20; k++ {
+		o := c12RandOptions(r)
+		v := [4]float64{}
+		for q := range v {
+			v[q] = []float64{0, 1, 1, 0.5, r.Float()}[r.Intn(5)]
+		}
+		ss := gedcom.NewSurroundingSimilarity(v[0], v[1], v[2], v[3])
+		ss.Options = o
+		c.Count("weighted-only", 1)
+		if w := ss.WeightedSimilarity(); c12Bad(w) {
+			c.Violation("range:SurroundingSimilarity.Weighted", fmt.Sprintf("parents %v individual %v spouses %v children %v under %s gives %v", v[0], v[1], v[2], v[3], o, w), map[string]interface{}{"similarities": v, "options": o.String()})
 		}
 	}
 	var nilInd *gedcom.IndividualNode
